@@ -256,9 +256,12 @@ def complex_add(document, cls, tags):
         if a.xml_choice_group is None:
             sequence.append(member)
         else:
-            choice_tags[a.xml_choice_group].append(member)
+            # the choice goes where its first member is declared, which is
+            # where the members are written.
+            if a.xml_choice_group not in choice_tags:
+                sequence.append(choice_tags[a.xml_choice_group])
 
-    sequence.extend(choice_tags.values())
+            choice_tags[a.xml_choice_group].append(member)
 
     if len(sequence) > 0:
         sequence_parent.append(sequence)
